@@ -22,7 +22,11 @@ def run(ctx, rep):
                    "the stored (sorted) tuple", floor=2)
     rep.rule("P2", "each tensor helper kron-s operand 1 before operand 2 and derives system_order / size_list from the same unsorted "
                    "concatenation it handed to CompositeSystem", floor=5)
+    rep.rule("K2", "sorting by adjacent transpositions: inside the loop every elementary swap is computed from the working copies that "
+                   "the loop itself swaps (the parameters they were copied from are stale after the first swap), and order and sizes are "
+                   "swapped at the same positions", floor=3)
     _k1(ctx, rep)
+    _k2(ctx, rep)
     # ---- O1
     f = ix.func(OP + "_tensor_product")
     p1, p2 = f.params[0], f.params[1]
@@ -218,3 +222,59 @@ def _p2_hs(ctx, rep):
         and txt.get("system_order") == "[e_sys.name for e_sys in e_sys_list]" and txt.get("size_list") == "[e_sys.dim ** 2 for e_sys in e_sys_list]"
     rep.check(ok, "P2", h, "vec-permutation of |HS1>> (x) |HS2>>", "kron(vec HS1, vec HS2) reordered by I_d1 (x) K(d2,d1) (x) I_d2, then by subsystem name",
               "the HS tensor product is not kron of the flattened operands with the d1/d2 commutation padding: %s" % {k: v for k, v in txt.items() if k in ("from_vec", "permutation", "size_list")}, node=h.node)
+
+
+
+# ------------------------------------------------------------------------------ K2
+def _k2(ctx, rep):
+    f = ctx.ix.func("quara.utils.matrix_util.calc_permutation_matrix")
+    # working copies: t = copy.copy(p) / list(p) / p[:] / p.copy() of a parameter
+    copies = {}
+    for n in own_nodes(f.node):
+        if isinstance(n, ast.Assign) and len(n.targets) == 1 and isinstance(n.targets[0], ast.Name):
+            v = n.value
+            src = None
+            if isinstance(v, ast.Call) and (dotted(v.func) or "") in ("copy.copy", "copy.deepcopy", "list") and len(v.args) == 1 and isinstance(v.args[0], ast.Name):
+                src = v.args[0].id
+            elif isinstance(v, ast.Subscript) and isinstance(v.value, ast.Name) and isinstance(v.slice, ast.Slice) and v.slice.lower is None and v.slice.upper is None:
+                src = v.value.id
+            elif isinstance(v, ast.Call) and isinstance(v.func, ast.Attribute) and v.func.attr == "copy" and isinstance(v.func.value, ast.Name):
+                src = v.func.value.id
+            if src in f.params:
+                copies[n.targets[0].id] = src
+    loops = [n for n in own_nodes(f.node) if isinstance(n, (ast.While, ast.For))]
+    if len(loops) != 1 or not copies:
+        rep.undecided("K2", f, "swap loop", "expected one loop over working copies of the parameters (found %d loops, copies %s)" % (len(loops), copies))
+        return
+    loop = loops[0]
+    body_nodes = [x for st in loop.body for x in ast.walk(st)]
+    # swaps: t[i - 1], t[i] = t[i], t[i - 1]
+    swaps = {}
+    for st in loop.body:
+        if isinstance(st, ast.Assign) and len(st.targets) == 1 and isinstance(st.targets[0], ast.Tuple) and isinstance(st.value, ast.Tuple) \
+                and len(st.targets[0].elts) == 2 and len(st.value.elts) == 2:
+            tl = [unparse(x) for x in st.targets[0].elts]
+            vl = [unparse(x) for x in st.value.elts]
+            base = {unparse(x.value) for x in st.targets[0].elts + st.value.elts if isinstance(x, ast.Subscript)}
+            if len(base) == 1 and tl == vl[::-1] and tl[0] != tl[1]:
+                b = next(iter(base))
+                idx = tuple(sorted(unparse(x.slice) for x in st.targets[0].elts))
+                swaps[b] = (idx, st)
+    for t, p in sorted(copies.items()):
+        mutated = t in swaps
+        stale = [x for x in body_nodes if isinstance(x, ast.Name) and x.id == p and isinstance(x.ctx, ast.Load)]
+        if not mutated:
+            rep.info("K2", f, "working copy %s" % t, "copied from %s but not swapped in the loop" % p)
+            continue
+        if stale:
+            rep.violation("K2", f, "working copy %s of %s" % (t, p), "`%s` is read inside the loop (line %d) although the loop swaps its working copy `%s`: "
+                          "after the first transposition the parameter no longer describes the current arrangement, so every further "
+                          "elementary permutation is built for the wrong sizes" % (p, stale[0].lineno, t), node=stale[0])
+        else:
+            rep.holds("K2", f, "working copy %s of %s" % (t, p), "only the working copy is read inside the loop", node=swaps[t][1])
+    if len(swaps) >= 2:
+        idxs = {v[0] for v in swaps.values()}
+        rep.check(len(idxs) == 1, "K2", f, "lockstep swaps of %s" % sorted(swaps), "same positions %s" % (sorted(idxs)[0],),
+                  "the working lists are swapped at different positions %s: order and sizes drift apart" % sorted(idxs), node=loop)
+    else:
+        rep.undecided("K2", f, "lockstep swaps", "expected the order list and the size list to be swapped in the loop, found %s" % sorted(swaps))
